@@ -278,6 +278,11 @@ Print Assumptions C16_fixed_scenarios_hold.
 Example C16_nonvacuous_mixed : s_tw (run ex_mixed) = [0; 1; 6] /\ holds ex_mixed = true /\
   length (segments (s_tw (run ex_mixed)) (s_bufs (run ex_mixed))) = 8%nat.
 Proof. exact ex_mixed_ok. Qed.
+Example C16_nonvacuous_eligible_batches :
+  preb 16 ex_mixed = true /\ bytes_okb ex_mixed = true /\
+  forallb (fun b => WG.Gro.Check.keep_eligible (b_pkt b)) ex_mixed = true /\
+  existsb (fun j => v_gso (dec_vhdr (b_hdr (get_buf (s_bufs (run ex_mixed)) j))) =? GSO_UDP_L4) (s_tw (run ex_mixed)) = true.
+Proof. exact eligible_batches_nonvacuous. Qed.
 Example C16_nonvacuous_prepend_wrap : s_tw (run ex_prepend) = [0] /\ holds ex_prepend = true /\
   s_trace (run ex_prepend) = [Inserted; Coalesced 0 true; Coalesced 0 false].
 Proof. exact ex_prepend_ok. Qed.
